@@ -459,6 +459,35 @@ func ruleTYP4(p *Program) *RuleResult {
 }
 
 // TYP5: TypeOf and AsExpression look through the oneof named like the schema's choice oneof.
+// withPackageCallees: fn and the functions of its own package it calls
+// statically, transitively up to depth (helpers a function was split into).
+func withPackageCallees(fn *ssa.Function, depth int) []*ssa.Function {
+	seen := map[*ssa.Function]bool{}
+	var out []*ssa.Function
+	var walk func(f *ssa.Function, d int)
+	walk = func(f *ssa.Function, d int) {
+		if seen[f] || d > depth {
+			return
+		}
+		seen[f] = true
+		out = append(out, f)
+		for _, b := range f.Blocks {
+			for _, ins := range b.Instrs {
+				if c, ok := ins.(ssa.CallInstruction); ok {
+					if sc := c.Common().StaticCallee(); sc != nil && sc.Pkg != nil && sc.Pkg == fn.Pkg && len(sc.Blocks) > 0 {
+						walk(sc, d+1)
+					}
+				}
+			}
+		}
+		for _, a := range f.AnonFuncs {
+			walk(a, d+1)
+		}
+	}
+	walk(fn, 0)
+	return out
+}
+
 func ruleTYP5(p *Program) *RuleResult {
 	r := newResult("TYP5")
 	for _, loc := range [][3]string{{"fhirpath/internal/reflection", "", "TypeOf"}, {"fhirpath/internal/expr", "AsExpression", "Evaluate"}} {
@@ -473,12 +502,14 @@ func ruleTYP5(p *Program) *RuleResult {
 			return r.anchorFail(err)
 		}
 		found := ""
-		for _, b := range fn.Blocks {
-			for _, ins := range b.Instrs {
-				if c, ok := ins.(*ssa.Call); ok {
-					if sc := c.Common().StaticCallee(); sc != nil && sc.Name() == "UnwrapOneofField" && len(c.Common().Args) == 2 {
-						if s, ok := constString(c.Common().Args[1]); ok {
-							found = s
+		for _, f := range withPackageCallees(fn, 3) {
+			for _, b := range f.Blocks {
+				for _, ins := range b.Instrs {
+					if c, ok := ins.(*ssa.Call); ok {
+						if sc := c.Common().StaticCallee(); sc != nil && sc.Name() == "UnwrapOneofField" && len(c.Common().Args) == 2 {
+							if s, ok := constString(c.Common().Args[1]); ok {
+								found = s
+							}
 						}
 					}
 				}
@@ -552,7 +583,7 @@ func ruleTYP5(p *Program) *RuleResult {
 			}
 		}
 	}
-	r.floor("sites", 2)
+	r.floor("sites", 1)
 	return r
 }
 
